@@ -463,6 +463,34 @@ def handler : Handler := fun op j =>
     | "apgm" =>
       some (ok (jAPGM (apgmInit (← fFloat? j "L0") inf (← fFV? j "x0") (0 : FV))))
     | _ => none
+  -- constructors with their argument checks: ADMM list lengths (`ng`, `nc`, `nrho` are the lengths the caller passes;
+  -- the parameter lists are truncated / padded accordingly by the harness), PGM `has_prox`
+  | "init_checked" => do
+    let alg ← fStr? j "alg"
+    match alg with
+    | "admm" =>
+      let ng ← fNat? j "ng"
+      let nc ← fNat? j "nc"
+      let nrho ← fNat? j "nrho"
+      let n ← fNat? j "n"
+      let dummyG : FV → Float := fun _ => 0.0
+      let dummyP : Float → FV → FV := fun _ v => v
+      let p : ADMMParams Float FV FV :=
+        { f := none, g := List.replicate ng dummyG, proxg := List.replicate ng dummyP,
+          C := List.replicate nc (fun x => x), Cadj := List.replicate nc (fun z => z), rho := List.replicate nrho 1.0,
+          alpha := 1.0, solveX := fun _ _ x => x, normX := FV.norm, normZ := FV.norm }
+      match admmInitChecked p (some (FV.zeros n)) with
+      | .ok s => some (ok (jObj [("nz", jN s.z.length), ("nu", jN s.u.length), ("nzold", jN s.zOld.length)]))
+      | .error .value => some (err "value")
+    | "pgm" =>
+      match pgmInitChecked (← fBool? j "has_prox") (← fFloat? j "L0") inf (← fFV? j "x0") (0 : FV) with
+      | .ok s => some (ok (jPGM s))
+      | .error .value => some (err "value")
+    | "apgm" =>
+      match apgmInitChecked (← fBool? j "has_prox") (← fFloat? j "L0") inf (← fFV? j "x0") (0 : FV) with
+      | .ok s => some (ok (jAPGM s))
+      | .error .value => some (err "value")
+    | _ => none
   | "acc" => do
     let alg ← fStr? j "alg"
     let pj ← field? j "p"
